@@ -2346,4 +2346,330 @@ theorem termLens_ne_nil (z : Cps) (h : termLens z ≠ []) :
             · subst h32; simp
             · simp [termLens, nlLens, h10, h13, h12, h32] at h
 
+
+/-- what is reached through a later alternative of the first `{urlchar}` stays inside the first alternative -/
+theorem urlchar_alt_short (n : Nat) (x : Cps) (hn : x.length < n + 1) (i1 : Nat) (irest : List Nat)
+    (hI : urlcharRe.ms x = i1 :: irest) :
+    ∀ i2 ∈ irest, ∀ l ∈ Re.starMs urlcharRe.ms true n (x.drop i2), i2 + l < i1 := by
+  rcases x with _ | ⟨c, t⟩
+  · simp [ms_nil_of_nonNullable urlchar_nonNullable] at hI
+  by_cases hc : c ≠ 92
+  · rw [urlchar_ms_nbs c t hc] at hI
+    by_cases hp : Re.inCls false plainRanges c = true
+    · have := (plain_facts c hp).1
+      have h128 : ¬ 128 ≤ c := by omega
+      simp only [hp, if_true, h128, if_false, List.append_nil, List.cons.injEq] at hI
+      obtain ⟨_, rfl⟩ := hI
+      intro i2 h; cases h
+    · simp only [hp, Bool.false_eq_true, if_false, List.nil_append] at hI
+      split at hI
+      · simp only [List.cons.injEq] at hI
+        obtain ⟨_, rfl⟩ := hI
+        intro i2 h; cases h
+      · cases hI
+  have hc : c = 92 := by simpa using hc
+  subst hc
+  rw [urlchar_ms_bs] at hI
+  rcases t with _ | ⟨d, u⟩
+  · have : urlHexRe.ms [] = [] := urlHex_ms_nonhex [] (by intro d u e; cases e)
+    simp only [this, Re.ms, List.map_nil, List.nil_append, List.cons.injEq] at hI
+    obtain ⟨_, rfl⟩ := hI
+    intro i2 h; cases h
+  by_cases hh : isHex d = true
+  · have hsp : (Re.cls false specialRanges).ms (d :: u) = [] := by
+      have : Re.inCls false specialRanges d = false := by
+        cases hs : Re.inCls false specialRanges d with
+        | false => rfl
+        | true => have := (special_facts d hs).2.2.2; rw [hh] at this; cases this
+      simp [Re.ms, this]
+    rw [urlHex_ms d u hh, hsp] at hI
+    simp only [List.map_nil, List.nil_append, List.map_map] at hI
+    have hulen : u.length + 1 < n := by simp at hn; omega
+    by_cases hT : termLens (u.drop (runLen isHex u 5)) = []
+    · rw [hT] at hI
+      simp only [List.map_nil, List.nil_append, List.cons.injEq] at hI
+      obtain ⟨_, rfl⟩ := hI
+      intro i2 h; cases h
+    · obtain ⟨e, w, hew, hdead, hshape⟩ := termLens_ne_nil _ hT
+      -- the run of hex digits after the backslash, then the terminator: from position 1 the star stops at the terminator
+      have hsplit : d :: u = (d :: u.take (runLen isHex u 5)) ++ (e :: w) := by
+        rw [List.cons_append, ← hew, List.take_append_drop]
+      have hlen : (u.take (runLen isHex u 5)).length = runLen isHex u 5 := by
+        rw [List.length_take]; exact Nat.min_eq_left (runLen_le_length isHex u 5)
+      have hrun : Re.starMs urlcharRe.ms true n (d :: u) = countdown (runLen isHex u 5 + 1) := by
+        have := starMs_run urlcharRe.ms isHex (fun c t hc => urlchar_ms_hexhead c t hc) (e :: w) hdead
+          (d :: u.take (runLen isHex u 5)) n
+          (by
+            intro c hc
+            simp only [List.mem_cons] at hc
+            rcases hc with rfl | hc
+            · exact hh
+            · exact all_take_runLen isHex u 5 c hc)
+          (by simp only [List.length_cons, hlen]; have := runLen_le_length isHex u 5; omega)
+        rw [← hsplit] at this
+        simpa [hlen] using this
+      intro i2 hi2 l hl
+      rcases hshape with h1 | ⟨h21, w', hw'⟩
+      · rw [h1] at hI
+        simp only [List.map_cons, List.map_nil, List.cons_append, List.nil_append, List.cons.injEq,
+          Function.comp] at hI
+        obtain ⟨rfl, rfl⟩ := hI
+        simp only [List.mem_singleton] at hi2
+        subst hi2
+        simp only [List.drop_succ_cons, List.drop_zero] at hl
+        rw [hrun] at hl
+        have := mem_countdown hl
+        omega
+      · rw [h21] at hI
+        simp only [List.map_cons, List.map_nil, List.cons_append, List.nil_append, List.cons.injEq,
+          Function.comp] at hI
+        obtain ⟨rfl, rfl⟩ := hI
+        simp only [List.mem_cons, List.not_mem_nil, or_false] at hi2
+        rcases hi2 with rfl | rfl
+        · -- `\` hex+ CR, the LF left over
+          have hd3 : (92 :: d :: u).drop (1 + (1 + runLen isHex u 5 + 1)) = 10 :: w' := by
+            rw [show 1 + (1 + runLen isHex u 5 + 1) = (runLen isHex u 5 + 1) + 1 + 1 from by omega]
+            simp only [List.drop_succ_cons]
+            rw [← List.drop_drop, hew, hw']
+            rfl
+          rw [hd3] at hl
+          have hlf : urlcharRe.ms (10 :: w') = [] := by
+            rw [urlchar_ms_nbs 10 w' (by decide)]
+            have : Re.inCls false plainRanges 10 = false := by decide
+            simp [this]
+          rw [urlchar_dead n _ hlf] at hl
+          simp only [List.mem_singleton] at hl
+          omega
+        · simp only [List.drop_succ_cons, List.drop_zero] at hl
+          rw [hrun] at hl
+          have := mem_countdown hl
+          omega
+  · have hh' : isHex d = false := by simpa using hh
+    rw [urlHex_ms_nonhex (d :: u) (by intro d' u' e; cases e; exact hh')] at hI
+    simp only [List.map_nil, List.nil_append] at hI
+    by_cases hs : Re.inCls false specialRanges d = true
+    · simp only [Re.ms, hs, if_true, List.map_cons, List.map_nil, List.cons_append, List.nil_append,
+        List.cons.injEq] at hI
+      obtain ⟨rfl, rfl⟩ := hI
+      intro i2 hi2 l hl
+      simp only [List.mem_singleton] at hi2
+      subst hi2
+      simp only [List.drop_succ_cons, List.drop_zero] at hl
+      have hf := special_facts d hs
+      have hdead : urlcharRe.ms (d :: u) = [] := by
+        rw [urlchar_ms_nbs d u hf.2.1, hf.2.2.1]
+        have : ¬ 128 ≤ d := by omega
+        simp [this]
+      rw [urlchar_dead n _ hdead] at hl
+      simp only [List.mem_singleton] at hl
+      omega
+    · simp only [Re.ms, hs, Bool.false_eq_true, if_false, List.map_nil, List.nil_append, List.cons.injEq] at hI
+      obtain ⟨_, rfl⟩ := hI
+      intro i2 h; cases h
+
+/-- the greedy success of `({urlchar})*` is the longest -/
+theorem star_urlchar_max : ∀ (n : Nat) (x : Cps), x.length < n →
+    ∀ l ls, Re.starMs urlcharRe.ms true n x = l :: ls → ∀ l' ∈ ls, l' < l := by
+  intro n
+  induction n with
+  | zero => intro x h; omega
+  | succ n ih =>
+    intro x hx l ls hm l' hl'
+    simp only [Re.starMs, if_true, filter_pos_of_nonNullable urlchar_nonNullable] at hm
+    cases hI : urlcharRe.ms x with
+    | nil =>
+      rw [hI] at hm
+      simp only [List.flatMap_nil, List.nil_append, List.cons.injEq] at hm
+      obtain ⟨_, rfl⟩ := hm
+      cases hl'
+    | cons i1 irest =>
+      rw [hI] at hm
+      have hi1 : i1 ∈ urlcharRe.ms x := by rw [hI]; simp
+      have hpos := Re.nonNullable_sound urlcharRe urlchar_nonNullable x i1 hi1
+      have hbd := Re.ms_bounded urlcharRe x i1 hi1
+      simp only [List.flatMap_cons] at hm
+      cases hS : Re.starMs urlcharRe.ms true n (x.drop i1) with
+      | nil => exact absurd hS (starMs_ne_nil _ _ _ _)
+      | cons h hs =>
+        rw [hS] at hm
+        simp only [List.map_cons, List.cons_append, List.cons.injEq] at hm
+        obtain ⟨rfl, rfl⟩ := hm
+        simp only [List.mem_append, List.mem_map, List.mem_flatMap, List.mem_singleton] at hl'
+        rcases hl' with (⟨l'', h1, rfl⟩ | ⟨i2, hi2, l'', h2, rfl⟩) | rfl
+        · have := ih (x.drop i1) (by simp only [List.length_drop]; omega) h hs hS l'' h1
+          omega
+        · have := urlchar_alt_short n x hx i1 irest hI i2 hi2 l'' h2
+          omega
+        · omega
+
+theorem dropWhile_drop_of_le (p : Nat → Bool) : ∀ (z : Cps) (k : Nat), k ≤ (z.takeWhile p).length →
+    (z.drop k).dropWhile p = z.dropWhile p := by
+  intro z
+  induction z with
+  | nil => intro k _; simp
+  | cons c t ih =>
+    intro k hk
+    cases k with
+    | zero => rfl
+    | succ k =>
+      by_cases hc : p c = true
+      · simp only [List.takeWhile_cons, hc, if_true, List.length_cons] at hk
+        simp only [List.drop_succ_cons, List.dropWhile_cons, hc, if_true]
+        exact ih k (by omega)
+      · simp [List.takeWhile_cons, hc] at hk
+
+theorem urlStar_avoids : Avoid 41 (Re.star urlcharRe true).ms := avoids_sound 41 _ (by decide)
+
+/-- after `({urlchar})*`: if white space and `)` follow some success, they follow the greedy one -/
+theorem urlStar_dom : Dom (Re.star urlcharRe true) closeRe := by
+  intro x _ l ls hm l' hl' hne
+  have hlt : l' < l := star_urlchar_max _ x (Nat.lt_succ_self _) l ls hm l' hl'
+  have hav : ∀ c ∈ x.take l, c ≠ 41 := urlStar_avoids x l (by rw [hm]; simp)
+  rw [close_ms_iff] at hne ⊢
+  unfold closes at hne ⊢
+  -- the `)` that follows `l'` is not before `l`
+  generalize hm' : ((x.drop l').takeWhile (Re.inCls false wsRanges)).length = m at *
+  have hdw := drop_takeWhile_length (Re.inCls false wsRanges) (x.drop l')
+  rw [hm', List.drop_drop] at hdw
+  have hle : l ≤ l' + m := by
+    rcases Nat.lt_or_ge (l' + m) l with h | h
+    · exfalso
+      rw [← hdw] at hne
+      have hmem : (41 : Nat) ∈ x.take l := by
+        have hlen : l' + m < x.length := by
+          rcases Nat.lt_or_ge (l' + m) x.length with h' | h'
+          · exact h'
+          · rw [List.drop_eq_nil_of_le h'] at hne; cases hne
+        rw [List.drop_eq_getElem_cons hlen] at hne
+        simp only [List.head?_cons, Option.some.injEq] at hne
+        rw [List.mem_take_iff_getElem]
+        exact ⟨l' + m, by omega, hne⟩
+      exact hav 41 hmem rfl
+    · exact h
+  have : x.drop l = (x.drop l').drop (l - l') := by rw [List.drop_drop]; congr 1; omega
+  rw [this, dropWhile_drop_of_le _ _ _ (by omega)]
+  exact hne
+
+
+/-! ## URI: assembly -/
+
+theorem firstPres_congr {rep : Nat → Bool} {r r' : Re} (h : ∀ x, r.ms x = r'.ms x) (hp : FirstPres rep r') :
+    FirstPres rep r := by
+  intro s hs
+  have := hp s hs
+  simp only [Re.first, h] at this ⊢
+  exact this
+
+theorem firstPres_seq_alt {rep : Nat → Bool} {a b t : Re} (ha : FirstPres rep (Re.seq a t))
+    (hb : FirstPres rep (Re.seq b t)) : FirstPres rep (Re.seq (Re.alt a b) t) :=
+  firstPres_congr (r' := Re.alt (Re.seq a t) (Re.seq b t)) (by intro x; simp [Re.ms, List.flatMap_append])
+    (firstPres_alt ha hb)
+
+theorem urlchar_firstPresH (rep : Nat → Bool) (ha : AsciiRep rep) : FirstPresH rep urlcharRe :=
+  firstPresH_alt (firstPresH_cls rep _ _) (firstPresH_alt (firstPresH_cls rep _ _)
+    (firstPresH_alt (firstPresH_seq_bs (firstPres_of_same (asciiPos_sound rep ha urlHexRe (by decide))).toH)
+      (firstPresH_alt (firstPresH_seq_bs (firstPresH_cls rep _ _)) (firstPresH_cls rep _ _))))
+
+theorem urlHex_first (c : Nat) (hmax : c ≤ maxUnicode) (y : Cps) :
+    urlHexRe.first (hexDigits c ++ 32 :: y) = some ((hexDigits c).length + 1) := by
+  have hup := EncEscape.hexDigits_upper c
+  have hlen := EncEscape.hexDigits_length_le6 c hmax
+  have hne : hexDigits c ≠ [] := hexDigitsF_ne_nil c c
+  cases hH : hexDigits c with
+  | nil => exact absurd hH hne
+  | cons d ds =>
+    rw [hH] at hup hlen
+    have hd : isHex d = true := isHex_of_upper d (hup d List.mem_cons_self)
+    have hds : ∀ x ∈ ds, isHex x = true := fun x hx => isHex_of_upper x (hup x (List.mem_cons_of_mem _ hx))
+    have hrun : runLen isHex (ds ++ 32 :: y) 5 = ds.length :=
+      runLen_append_stop isHex 32 y (by decide) ds 5 hds (by simp at hlen; omega)
+    have h1 : (Re.rep hexRe 1 6 true).first ((d :: ds) ++ 32 :: y) = some (d :: ds).length := by
+      simp only [Re.first, List.cons_append, hexrep_ms d _ hd, hrun, List.head?_map, head_countdown,
+        Option.map_some, List.length_cons]
+      congr 1; omega
+    have h2 : termRe.first (((d :: ds) ++ 32 :: y).drop (d :: ds).length) = some 1 := by
+      rw [List.drop_left, Re.first, term_ms]; simp [termLens, nlLens]
+    exact first_seq_some h1 h2
+
+theorem urlchar_starUnrep (rep : Nat → Bool) (ha : AsciiRep rep) : StarUnrep rep urlcharRe := by
+  intro c hc hmax
+  have h128 := unrep_ge ha hc
+  constructor
+  · intro t
+    have hp : Re.inCls false plainRanges c = false := by
+      cases h : Re.inCls false plainRanges c with
+      | false => rfl
+      | true => have := (plain_facts c h).1; omega
+    rw [Re.first, urlchar_ms_nbs c t (by omega), hp]
+    simp [h128]
+  · intro y
+    have hx := urlHex_first c hmax y
+    have hf : urlcharRe.first (escChar c ++ y) = some ((escChar c).length) := by
+      have e : escChar c ++ y = 92 :: (hexDigits c ++ 32 :: y) := by simp [escChar]
+      rw [e, Re.first, urlchar_ms_bs]
+      rw [Re.first] at hx
+      cases hm : urlHexRe.ms (hexDigits c ++ 32 :: y) with
+      | nil => rw [hm] at hx; cases hx
+      | cons a as =>
+        rw [hm] at hx
+        simp only [List.head?_cons, Option.some.injEq] at hx
+        subst hx
+        simp [escChar]; omega
+    rw [starLen_some urlchar_nonNullable hf]
+    simp
+
+theorem urlStar_firstPres (rep : Nat → Bool) (ha : AsciiRep rep) : FirstPres rep (Re.star urlcharRe true) :=
+  firstPres_star_of_H urlchar_nonNullable (urlchar_firstPresH rep ha) (urlchar_starUnrep rep ha)
+
+theorem strBody_tight' (q : Nat) (hq : q = 34 ∨ q = 39) (T : Re) :
+    Tight (strBody q) (Re.seq (Re.cls false [(q, q)]) T) := by
+  intro x _ l ls hm l' hl'
+  rw [strBody_ms] at hm
+  have := starMs_item_tight q hq _ x (Nat.lt_succ_self _) l ls hm l' hl'
+  cases hd : x.drop l' with
+  | nil => simp [Re.ms]
+  | cons c t =>
+    rw [hd] at this
+    simp only [List.head?_cons, ne_eq, Option.some.injEq] at this
+    simp [Re.ms, inCls_single, this]
+
+theorem strQ_close_firstPres (rep : Nat → Bool) (ha : AsciiRep rep) (q : Nat) (hq : q = 34 ∨ q = 39) :
+    FirstPres rep (Re.seq (strQRe q) closeRe) := by
+  have hQC : asciiPos (Re.seq (Re.cls false [(q, q)]) closeRe) = true := by
+    rcases hq with rfl | rfl <;> decide
+  apply firstPres_congr (r' := Re.seq (Re.cls false [(q, q)]) (Re.seq (strBody q)
+    (Re.seq (Re.cls false [(q, q)]) closeRe)))
+  · intro x
+    rw [strQRe, ms_seq_assoc]
+    apply ms_seq_congr_right
+    intro y
+    rw [ms_seq_assoc]
+  · exact firstPres_seq_same (quote_same rep ha q hq)
+      (firstPres_seq_det (strBody_firstPres rep ha q hq) (firstPres_of_same (asciiPos_sound rep ha _ hQC))
+        (seqDet_of_tight (strBody_tight' q hq closeRe)))
+
+def uriY3 : Re := Re.seq lparenRe (Re.seq wStarRe (Re.seq uriBodyRe closeRe))
+def uriY2 : Re := Re.seq lLetter uriY3
+def uriY1 : Re := Re.seq rLetter uriY2
+
+/-- URI keeps its first match -/
+theorem uri_firstPres (rep : Nat → Bool) (ha : AsciiRep rep) : FirstPres rep reURI := by
+  rw [reURI_shape]
+  have hclose : FirstPres rep closeRe := firstPres_of_same (asciiPos_sound rep ha _ (by decide))
+  have h5 : FirstPres rep (Re.seq uriBodyRe closeRe) :=
+    firstPres_seq_alt
+      (firstPres_seq_alt (strQ_close_firstPres rep ha 34 (Or.inl rfl)) (strQ_close_firstPres rep ha 39 (Or.inr rfl)))
+      (firstPres_seq_det (urlStar_firstPres rep ha) hclose (seqDet_of_dom urlStar_dom))
+  have h3 : FirstPres rep uriY3 :=
+    firstPres_seq_same (asciiPos_sound rep ha lparenRe (by decide))
+      (firstPres_seq_same (asciiPos_sound rep ha wStarRe (by decide)) h5)
+  have h2 : FirstPres rep uriY2 :=
+    letter_seq_firstPres rep ha _ _ _ _ _ _ lLetter_ok uriY3 h3
+      (fun c t hc => noStart_sound (cs := [(48, 57), (65, 70)]) (by decide) (upperHexRanges c hc) t)
+  have h1 : FirstPres rep uriY1 :=
+    letter_seq_firstPres rep ha _ _ _ _ _ _ rLetter_ok uriY2 h2
+      (fun c t hc => noStart_sound (cs := [(48, 57), (65, 70)]) (by decide) (upperHexRanges c hc) t)
+  exact letter_seq_firstPres rep ha _ _ _ _ _ _ uLetter_ok uriY1 h1
+    (fun c t hc => noStart_sound (cs := [(48, 57), (65, 70)]) (by decide) (upperHexRanges c hc) t)
+
 end CssVerif.EncTok
